@@ -2,6 +2,7 @@ import HC.Proto.H11
 import HC.Props.C06
 import HC.Extracted.AppExit
 import HC.Proto.H2Credit
+import HC.Stream.WsExit
 /-!
 # C05 — application failures are contained and never yield a falsely complete response
 
@@ -134,6 +135,87 @@ theorem crash_after_start (s : Http.S) (hst : s.st = .response ∨ s.st = .trail
 theorem exit_after_completion (s : Http.S) (hc : s.closed = true) : Http.appSend s none = (s, [], none) := by
   simp [Http.appSend, hc]
 
+/-! ### the completion branch (`message is None`) as it stands in the source -/
+
+/-- **the model's completion step is the source's**: in every state of the response (REQUEST, RESPONSE, TRAILERS, CLOSED)
+    what `Http.appSend s none` hands to the protocol is what the `message is None` branch of `HTTPStream.app_send` - read
+    off the source on every run, evaluated state by state (`httpExitActs`) - sends in that state -/
+theorem exit_branch_is_source (s : Http.S) (hc : s.closed = false) :
+    (Http.appSend s none).2.1 = (httpExitActs s.st).flatMap XAct.events := by
+  cases hst : s.st <;> simp [Http.appSend, hc, hst, httpExitActs, XAct.events]
+
+/-- **an application that ends after the response start and before its end - mid-body, or with the whole body sent and
+    the announced trailers still outstanding (TRAILERS) - gets nothing but stream-closed from the source**: no statement
+    that would complete or continue the response (no end-of-body, no 500, no trailers) -/
+theorem source_exit_never_completes (st : Http.St) (h : st = .response ∨ st = .trailers) :
+    ∀ a ∈ httpExitActs st, a.completes = false := by
+  rcases h with h | h <;> subst h <;> decide
+
+/-- and before the start the source answers with the complete 500, then stream-closed -/
+theorem source_exit_before_start_500 : httpExitActs .request = [.errorResponse 500, .streamClosed] := by decide
+
+/-! ### HTTP/1: a message h11 refused, then the application's failure -/
+
+/-- `fire` (h11's state-triggered transitions) never takes our side out of ERROR -/
+theorem fire_keeps_server_error (x : H11M.St) (h : x.server = .error) : (H11M.fire x).server = .error := by
+  have one : ∀ y : H11M.St, y.server = .error → (H11M.fireOnce y).server = .error := by
+    intro y hy
+    simp only [H11M.fireOnce]
+    have : ∀ (p ka : Bool) (c : HSt), (H11M.firePair p ka c .error).2 = .error := by
+      intro p ka c; cases p <;> cases ka <;> cases c <;> decide
+    rw [hy]; exact this _ _ _
+  simp only [H11M.fire]
+  exact one _ (one _ (one _ (one _ (one _ (one _ h)))))
+
+/-- the library call of `_send_h11_event` -/
+def libCall (st : St) : LibSend → Option H11M.St
+  | .info s _ => H11M.sendInfo st.lib s
+  | .response s hs => H11M.sendResponse st.lib (respInfo s hs)
+  | .data _ => H11M.sendData st.lib
+  | .eom => H11M.sendEom st.lib
+
+theorem libSend_refused (st : St) (e : LibSend) (h : libCall st e = none) :
+    libSend st e = ({ st with lib := H11M.sendFailed st.lib }, [.libSend e false],
+      (H11M.sendFailed st.lib).client != .error && st.lib.server != .error) := by
+  cases e <;> simp only [libCall] at h <;> simp [libSend, h]
+
+theorem libSend_accepted (st : St) (e : LibSend) (lib' : H11M.St) (h : libCall st e = some lib') :
+    Out.libSend e false ∉ (libSend st e).2.1 := by
+  cases e <;> simp only [libCall] at h <;> simp [libSend, h] <;> (try split) <;> simp
+
+theorem sendFailed_server (l : H11M.St) : (H11M.sendFailed l).server = .error := by
+  simp only [H11M.sendFailed, H11M.processError]
+  apply fire_keeps_server_error
+  simp [H11M.St.set]
+
+/-- **a send h11 refuses leaves our side in ERROR** (`send_with_data_passthrough`: `_process_error(our_role)`) -/
+theorem refused_send_poisons (st : St) (e : LibSend) (h : Out.libSend e false ∈ (libSend st e).2.1) :
+    (libSend st e).1.lib.server = .error := by
+  cases hc : libCall st e with
+  | some lib' => exact absurd h (libSend_accepted st e lib' hc)
+  | none => rw [libSend_refused st e hc]; exact sendFailed_server _
+
+/-- **once our side is in ERROR no `_send_h11_event` raises any more** - whatever the event: the body and the end an
+    application goes on sending, its retried start, and the 500 that `app_send(None)` attempts when the application has
+    died are all dropped (`errored = our_state is ERROR` before the call: the raise flag is false); nothing is written;
+    our side stays in ERROR, so `_maybe_recycle` closes the connection (`h1_crash_mid_response_closes`' argument) -/
+theorem errored_send_never_raises (st : St) (e : LibSend) (h : st.lib.server = .error) :
+    (libSend st e).2.2 = false ∧ (libSend st e).2.1 = [.libSend e false] ∧ (libSend st e).1.lib.server = .error := by
+  have hr : libCall st e = none := by
+    cases e <;> simp [libCall, H11M.sendInfo, H11M.sendResponse, H11M.sendData, H11M.sendEom, h]
+  rw [libSend_refused st e hr]
+  exact ⟨by simp [h], rfl, sendFailed_server _⟩
+
+/-- **a message h11 refused, then anything**: after the refusal (which alone is raised into the application) every later
+    send of the connection is dropped without an exception - in particular the failure of the application that follows
+    (its 500) cannot end the connection handler with an error -/
+theorem refused_then_nothing_raises (st : St) (e e' : LibSend) (h : Out.libSend e false ∈ (libSend st e).2.1) :
+    (libSend (libSend st e).1 e').2.2 = false :=
+  (errored_send_never_raises _ e' (refused_send_poisons st e h)).1
+
+/-- non-vacuous: a 101 on a request that proposed no upgrade is refused (h11's writer in SEND_RESPONSE, nothing pending) -/
+example : libCall { lib := { client := .done, server := .sendResponse } } (.info 101 []) = none := by decide
+
 /-- h11's writer reaches DONE only through `EndOfMessage` -/
 theorem server_done_only_by_eom (s s' : H11M.St) (k : EvKey) (h : H11M.stepServer s k = some s') (hk : k ≠ .eom)
     (hs : s.server ≠ .done) (hka : s.keepAlive = true ∨ True) : s'.server = .done → False := by
@@ -198,6 +280,304 @@ theorem ws_crash_connected (token : Bytes → Bytes) (ext : Option Bytes) (s : W
     (hconn : s.conn = some .open) :
     Ws.appSend token ext s none = ({ s with conn := some .localClosing }, [.data (.close 1011), .streamClosed], none) := by
   simp [Ws.appSend, hst, hc, Ws.sendWs, hconn, Ws.connSend]
+
+/-! ### WebSocket: a refused `websocket.close` leaves the connection open (F63) -/
+
+/-- reading `closesAfterFrame` -/
+theorem closesAfterFrame_spec (prog : List WStep) (h : closesAfterFrame prog = true) (k : Nat) (hk : k < prog.length)
+    (hs : (runWBranch prog (some k) {}).frameBuilt = false) : (runWBranch prog (some k) {}).st = .connected := by
+  simp only [closesAfterFrame, List.all_eq_true, List.mem_range] at h
+  have := h k hk
+  simp [hs] at this
+  exact this
+
+/-- **the source's CONNECTED-state `websocket.close` branch moves `self.state` only once the close frame has been produced,
+    and has moved it to CLOSED before the first await after that**: wherever the branch is left by an exception — `int(code)`,
+    wsproto's serialisation of the code or of the reason — the stream is still CONNECTED unless the frame exists; and the
+    reader task never runs between "wsproto is closing" and "`self.state` is CLOSED" -/
+theorem ws_close_branch_commits_after_frame :
+    closesAfterFrame wsCloseBranch = true ∧ closedBeforeYield wsCloseBranch = true := by decide
+
+/-- and when nothing raises, the branch builds the frame and leaves the stream CLOSED -/
+theorem ws_close_branch_completes :
+    runWBranch wsCloseBranch none {} = { st := .closed, frameBuilt := true, yieldedOpen := false } := by decide
+
+/-- the order the branch had before the repair (state first, then `_send_wsproto_event`) does not have the first property, and
+    "send first, then the state" does not have the second: the clauses tell the three orders apart -/
+example : closesAfterFrame [.setState .closed, .sendEvent, .sendEndData] = false ∧
+    closedBeforeYield [.sendEvent, .setState .closed, .sendEndData] = false := by decide
+
+/-- wsproto's serialisation of a close frame refuses exactly: a code outside 0..65535 (`struct.error`), else a reason that is
+    neither `None` nor a str (`AttributeError`) -/
+theorem closeFrame_refusals (n : Int) (reason : Option HV) (e : PyErr) (h : Ws.closeFrame n reason = .error e) :
+    ((n < 0 ∨ 65535 < n) ∧ e = .structError) ∨
+    (0 ≤ n ∧ n ≤ 65535 ∧ e = .attributeError ∧ (∃ v, reason = some v ∧ v ≠ .none ∧ ∀ t, v ≠ .str t)) := by
+  unfold Ws.closeFrame at h
+  by_cases hr : n < 0 ∨ 65535 < n
+  · rw [if_pos hr] at h
+    exact Or.inl ⟨hr, by cases h; rfl⟩
+  · rw [if_neg hr] at h
+    have hr' : 0 ≤ n ∧ n ≤ 65535 := by omega
+    right
+    refine ⟨hr'.1, hr'.2, ?_⟩
+    cases reason with
+    | none => cases h
+    | some v => cases v <;> simp at h <;> simp [h]
+
+/-- **every way the frame of a `websocket.close` message cannot be built, by cases**: `int(code)` raised (`e` is what it
+    raised), or there is no connection object, or the connection would take a close frame and wsproto's serialisation refuses
+    the code (outside 0..65535: `struct.error`) or the reason (neither `None` nor a str: `AttributeError`) -/
+theorem ws_close_refusals (s : Ws.S) (code : Ws.CloseCode) (reason : Option HV) (e : PyErr)
+    (h : Ws.closeArgs s code reason = .error e) :
+    code = .refused e ∨ (s.conn = none ∧ e = .attributeError) ∨
+    (∃ n, code.value = .ok n ∧ (s.conn = some .open ∨ s.conn = some .remoteClosing) ∧
+      (((n < 0 ∨ 65535 < n) ∧ e = .structError) ∨
+       (0 ≤ n ∧ n ≤ 65535 ∧ e = .attributeError ∧ (∃ v, reason = some v ∧ v ≠ .none ∧ ∀ t, v ≠ .str t)))) := by
+  unfold Ws.closeArgs at h
+  cases hv : code.value with
+  | error x =>
+    left
+    cases code <;> simp [Ws.CloseCode.value] at hv
+    simp [Ws.CloseCode.value] at h
+    rw [h]
+  | ok n =>
+    right
+    rw [hv] at h
+    cases hcn : s.conn with
+    | none => rw [hcn] at h; exact Or.inl ⟨rfl, by cases h; rfl⟩
+    | some c =>
+      right
+      rw [hcn] at h
+      refine ⟨n, rfl, ?_⟩
+      cases c with
+      | «open» => exact ⟨Or.inl rfl, closeFrame_refusals n reason e (by simpa [Ws.connSend] using h)⟩
+      | remoteClosing => exact ⟨Or.inr rfl, closeFrame_refusals n reason e (by simpa [Ws.connSend] using h)⟩
+      | localClosing => simp [Ws.connSend] at h
+      | closed => simp [Ws.connSend] at h
+
+/-- **model: a `websocket.close` message refused while CONNECTED hands nothing to the protocol and leaves the stream exactly
+    as it was — for every code and every reason, whichever layer refuses (cases: `ws_close_refusals`); when the application
+    then ends (it dies with the exception) the client is sent the 1011 close frame** -/
+theorem ws_refused_close_then_exit_1011 (token : Bytes → Bytes) (ext : Option Bytes) (s : Ws.S) (code : Ws.CloseCode)
+    (reason : Option HV) (e : PyErr) (hst : s.st = .connected) (hc : s.closed = false)
+    (herr : (Ws.appSend token ext s (some (.close code reason))).2.2 = some e) :
+    Ws.closeArgs s code reason = .error e ∧
+    (Ws.appSend token ext s (some (.close code reason))).2.1 = [] ∧
+    (Ws.appSend token ext s (some (.close code reason))).1 = s ∧
+    (s.conn = some .open →
+      Ws.appSend token ext (Ws.appSend token ext s (some (.close code reason))).1 none =
+        ({ s with conn := some .localClosing }, [.data (.close 1011), .streamClosed], none)) := by
+  have key : Ws.closeArgs s code reason = .error e ∧ (Ws.appSend token ext s (some (.close code reason))).2.1 = [] ∧
+      (Ws.appSend token ext s (some (.close code reason))).1 = s := by
+    cases hk : Ws.closeArgs s code reason with
+    | error x =>
+      simp [Ws.appSend, hst, hc, hk] at herr ⊢
+      exact herr
+    | ok k =>
+      -- a frame could be built: then there is a connection object and nothing is raised at all
+      exfalso
+      have hconn : s.conn ≠ none := by
+        intro hn
+        unfold Ws.closeArgs at hk
+        cases hv : code.value <;> simp [hv, hn] at hk
+      cases hcn : s.conn with
+      | none => exact hconn hcn
+      | some c =>
+        simp only [Ws.appSend, hst, hc, hk, Ws.sendWs, hcn] at herr
+        cases hcs : Ws.connSend c (.close k) <;> simp [hcs] at herr
+  refine ⟨key.1, key.2.1, key.2.2, ?_⟩
+  intro hopen
+  rw [key.2.2]
+  exact ws_crash_connected token ext s hst hc hopen
+
+/-- a code that is no number, a code that does not fit a close frame, a reason that is not a str: all refused, the stream untouched -/
+example : (Ws.appSend (fun _ => []) none { st := .connected, hs := { version := "1.1" }, conn := some .open, buffer := { maxLength := 10 } }
+      (some (.close (.refused .valueError) none))).2.2 = some .valueError ∧
+    (Ws.appSend (fun _ => []) none { st := .connected, hs := { version := "1.1" }, conn := some .open, buffer := { maxLength := 10 } }
+      (some (.close (.int 70000) none))).2.2 = some .structError ∧
+    (Ws.appSend (fun _ => []) none { st := .connected, hs := { version := "1.1" }, conn := some .open, buffer := { maxLength := 10 } }
+      (some (.close (.int 1000) (some (.int 5))))).2.2 = some .attributeError ∧
+    (Ws.appSend (fun _ => []) none { st := .connected, hs := { version := "1.1" }, conn := some .open, buffer := { maxLength := 10 } }
+      (some (.close (.int 1000) (some (.int 5))))).1.st = .connected := by decide
+
+/-! ### WebSocket: every message sequence, then the application's death (both carriers: the stream hands either protocol the
+    same events) -/
+open HC.Stream.WsExit in
+/-- **a refused WebSocket message — of any type, with any payload, in any state — hands nothing to the protocol and leaves
+    the stream exactly where it was** (so dying with the exception is answered as the state demands: next theorems) -/
+theorem ws_refused_message_is_noop (token : Bytes → Bytes) (ext : Option Bytes) (s : Ws.S) (w : List Ws.Ev) (m : Ws.Msg) (e : PyErr)
+    (hI : Inv s w) (herr : (Ws.appSend token ext s (some m)).2.2 = some e) :
+    (Ws.appSend token ext s (some m)).2.1 = [] ∧ (Ws.appSend token ext s (some m)).1.st = s.st ∧
+    (Ws.appSend token ext s (some m)).1.conn = s.conn ∧ (Ws.appSend token ext s (some m)).1.closed = s.closed := by
+  by_cases hcl : s.closed = true
+  · simp [Ws.appSend, hcl] at herr
+  · have hcl' : s.closed = false := by simpa using hcl
+    have hL := hI.2.2.2 hcl'
+    cases m with
+    | other => simp [Ws.appSend, hcl']
+    | accept sp extra =>
+      by_cases hst : s.st = .handshake
+      · cases ha : s.hs.accept token ext sp extra with
+        | error x => simp [Ws.appSend, hcl', hst, ha]
+        | ok r => simp [Ws.appSend, hcl', hst, ha] at herr
+      · simp [Ws.appSend, hcl', hst]
+    | respStart status headers =>
+      by_cases hst : s.st = .handshake
+      · simp [Ws.appSend, hcl', hst] at herr
+      · simp [Ws.appSend, hcl', hst]
+    | respBody body more =>
+      by_cases hst : s.st = .handshake ∨ s.st = .response
+      · have hx : Ws.appSend token ext s (some (.respBody body more)) = Ws.sendRejection s body more := by
+          simp [Ws.appSend, hcl', hst]
+        rw [hx] at herr ⊢
+        obtain ⟨kc, kcl, _, kcase⟩ := sendRejection_counts s body more hst
+        -- an error leaves `sendRejection` before anything was sent
+        have hnil : (Ws.sendRejection s body more).2.1 = [] ∧ (Ws.sendRejection s body more).1.st = s.st := by
+          unfold Ws.sendRejection at herr ⊢
+          cases hr : s.response with
+          | none => simp
+          | some p =>
+            obtain ⟨st?, hdrs⟩ := p
+            cases st? with
+            | none => simp
+            | some status =>
+              simp only [hr] at herr ⊢
+              cases hb : Ws.bodyBytes body with
+              | error x => simp
+              | ok b =>
+                simp only [hb] at herr ⊢
+                cases hd : Ws.denialHead s status hdrs with
+                | error x => simp
+                | ok q =>
+                  obtain ⟨s1, e1⟩ := q
+                  simp only [hd] at herr ⊢
+                  split at herr <;> simp at herr
+        exact ⟨hnil.1, hnil.2, kc, kcl⟩
+      · simp [Ws.appSend, hcl', hst]
+    | send bytes text =>
+      by_cases hst : s.st = .connected
+      · simp only [Live, hst] at hL
+        obtain ⟨_, _, c, hc, _, _⟩ := hL
+        have hshape : (∃ e', Ws.appSend token ext s (some (.send bytes text)) = (s, [], some e')) ∨
+            (∃ p, Ws.appSend token ext s (some (.send bytes text)) = Ws.sendWs s (.message p)) := by
+          simp only [Ws.appSend, hcl', hst, Bool.false_eq_true, ↓reduceIte]
+          split
+          · rename_i e' _; exact Or.inl ⟨e', rfl⟩
+          · rename_i p _; exact Or.inr ⟨p, rfl⟩
+        rcases hshape with ⟨e', hx⟩ | ⟨p, hx⟩
+        · rw [hx]; exact ⟨rfl, rfl, rfl, rfl⟩
+        · rw [hx] at herr
+          obtain ⟨hn, _⟩ := sendWs_spec s (.message p) c hc
+          rw [hn] at herr; cases herr
+      · simp [Ws.appSend, hcl', hst]
+    | close code reason =>
+      cases hst : s.st
+      · simp [Ws.appSend, hcl', hst] at herr
+      · obtain ⟨_, h2, h3, _⟩ := ws_refused_close_then_exit_1011 token ext s code reason e hst hcl' herr
+        rw [h3]; exact ⟨h2, hst, rfl, rfl⟩
+      · simp [Ws.appSend, hcl', hst]
+      · simp [Ws.appSend, hcl', hst]
+      · simp [Ws.appSend, hcl', hst]
+
+open HC.Stream.WsExit in
+/-- **any interleaving of application messages (accepted or refused; a refusal caught by the application or not) and client
+    input, then the application's death: the stream hands the protocol at most one response head, at most one end of a
+    response body and at most one close frame over its whole life** — never a second final response, never a close frame
+    after a close frame (the 1011 of a dying application included) -/
+theorem ws_life_at_most_one_answer (token : Bytes → Bytes) (ext : Option Bytes) (s0 : Ws.S) (hst : s0.st = .handshake)
+    (hconn : s0.conn = none) (ops : List WsExit.Op) :
+    heads (life token ext s0 ops) ≤ 1 ∧ ends (life token ext s0 ops) ≤ 1 ∧ closes (life token ext s0 ops) ≤ 1 := by
+  have h1 := inv_run token ext ops s0 [] (inv_init s0 hst hconn)
+  have h2 := inv_appSend token ext _ none _ h1
+  simp only [List.nil_append] at h2
+  exact ⟨h2.1, h2.2.1, h2.2.2.1⟩
+
+open HC.Stream.WsExit in
+/-- **what the application's death adds, by the state it dies in** (after any interleaving `ops`; `w` = what went out before):
+    handshake unanswered ⇒ exactly the 500 (the only response head of the stream); a rejection started or complete, or the
+    stream closed by the application's own `websocket.close` ⇒ nothing more (in particular no end-of-body for an unfinished
+    rejection, no second close frame); connected and no close frame sent yet ⇒ exactly the 1011 close frame; connected
+    with a close frame already out (1009 for an oversized message, the echo of the client's close) ⇒ nothing more;
+    the stream already closed by the protocol (client gone, 400 answered) ⇒ nothing at all -/
+theorem ws_death_by_state (token : Bytes → Bytes) (ext : Option Bytes) (s0 : Ws.S) (hst : s0.st = .handshake)
+    (hconn : s0.conn = none) (ops : List WsExit.Op) :
+    let s := (run token ext s0 ops).1
+    let w := (run token ext s0 ops).2
+    let x := (Ws.appSend token ext s none).2.1
+    (s.closed = true → x = []) ∧
+    (s.closed = false →
+      (s.st = .handshake → heads w = 0 ∧ closes w = 0 ∧ x = Ws.errorResponse 500 ++ [.streamClosed]) ∧
+      (s.st = .response → heads w = 1 ∧ ends w = 0 ∧ closes w = 0 ∧ x = [.streamClosed]) ∧
+      (s.st = .httpClosed → heads w = 1 ∧ ends w = 1 ∧ closes w = 0 ∧ x = [.streamClosed]) ∧
+      (s.st = .closed → heads w = 1 ∧ closes w = 1 ∧ x = [.streamClosed]) ∧
+      (s.st = .connected → heads w = 1 ∧
+        ((s.conn = some .open ∧ closes w = 0 ∧ x = [.data (.close 1011), .streamClosed]) ∨
+         (s.conn ≠ some .open ∧ closes w = 1 ∧ x = [.streamClosed])))) := by
+  have h1 := inv_run token ext ops s0 [] (inv_init s0 hst hconn)
+  simp only [List.nil_append] at h1
+  intro s w x
+  refine ⟨fun hc => by simp [x, Ws.appSend, hc], fun hc => ?_⟩
+  have hL : Live s w := h1.2.2.2 hc
+  refine ⟨fun h => ?_, fun h => ?_, fun h => ?_, fun h => ?_, fun h => ?_⟩
+  · simp only [Live, h] at hL
+    exact ⟨hL.1, hL.2.2.1, by simp [x, Ws.appSend, hc, h]⟩
+  · simp only [Live, h] at hL
+    exact ⟨hL.1, hL.2.1, hL.2.2.1, by simp [x, Ws.appSend, hc, h]⟩
+  · simp only [Live, h] at hL
+    exact ⟨hL.1, hL.2.1, hL.2.2.1, by simp [x, Ws.appSend, hc, h]⟩
+  · simp only [Live, h] at hL
+    obtain ⟨a1, _, c, _, _, _, a2⟩ := hL
+    exact ⟨a1, a2, by simp [x, Ws.appSend, hc, h]⟩
+  · simp only [Live, h] at hL
+    obtain ⟨a1, _, c, hcn, hnr, a2⟩ := hL
+    refine ⟨a1, ?_⟩
+    cases c with
+    | «open» => exact Or.inl ⟨hcn, by simpa using a2, by simp [x, Ws.appSend, hc, h, Ws.sendWs, hcn, Ws.connSend]⟩
+    | remoteClosing => exact absurd rfl hnr
+    | localClosing => exact Or.inr ⟨by simp [hcn], by simpa using a2, by simp [x, Ws.appSend, hc, h, Ws.sendWs, hcn, Ws.connSend]⟩
+    | closed => exact Or.inr ⟨by simp [hcn], by simpa using a2, by simp [x, Ws.appSend, hc, h, Ws.sendWs, hcn, Ws.connSend]⟩
+
+open HC.Stream.WsExit in
+/-- **the application's messages alone (any list: accepted, refused, in any order), then its death: the wire carries exactly
+    one of** {the 500 (handshake unanswered) | nothing more (rejection started / complete, close already sent) | the 1011
+    close frame (connected)} — by induction over the list, from a stream fresh from a valid handshake -/
+theorem ws_messages_then_death (token : Bytes → Bytes) (ext : Option Bytes) (s0 : Ws.S) (hst : s0.st = .handshake)
+    (hconn : s0.conn = none) (hcl : s0.closed = false) (ms : List Ws.Msg) :
+    let s := (feed token ext s0 ms).1
+    let w := (feed token ext s0 ms).2
+    let x := (Ws.appSend token ext s none).2.1
+    (s.st = .handshake ∧ heads w = 0 ∧ closes w = 0 ∧ x = Ws.errorResponse 500 ++ [.streamClosed]) ∨
+    ((s.st = .response ∨ s.st = .httpClosed) ∧ heads w = 1 ∧ closes w = 0 ∧ x = [.streamClosed]) ∨
+    (s.st = .closed ∧ heads w = 1 ∧ closes w = 1 ∧ x = [.streamClosed]) ∨
+    (s.st = .connected ∧ heads w = 1 ∧ closes w = 0 ∧ x = [.data (.close 1011), .streamClosed]) := by
+  intro s w x
+  have hA : AppInv s := appInv_feed token ext ms s0 ⟨hcl, fun h => by rw [hst] at h; cases h⟩
+  obtain ⟨_, hd⟩ := ws_death_by_state token ext s0 hst hconn (ms.map WsExit.Op.app)
+  obtain ⟨d1, d2, d3, d4, d5⟩ := hd hA.1
+  cases h : s.st
+  · exact Or.inl ⟨rfl, d1 h⟩
+  · right; right; right
+    obtain ⟨a1, a2⟩ := d5 h
+    rcases a2 with ⟨_, a3, a4⟩ | ⟨a3, _⟩
+    · exact ⟨rfl, a1, a3, a4⟩
+    · exact absurd (hA.2 h) a3
+  · obtain ⟨a1, _, a3, a4⟩ := d2 h
+    exact Or.inr (Or.inl ⟨Or.inl rfl, a1, a3, a4⟩)
+  · exact Or.inr (Or.inr (Or.inl ⟨rfl, d4 h⟩))
+  · obtain ⟨a1, _, a3, a4⟩ := d3 h
+    exact Or.inr (Or.inl ⟨Or.inr rfl, a1, a3, a4⟩)
+
+open HC.Stream.WsExit in
+/-- the hypotheses are satisfiable and every branch occurs: accept, a refused close, a refused send, then death ⇒ 1011;
+    a rejection head then death ⇒ nothing more, no end-of-body; a refused accept then death ⇒ 500 -/
+example :
+    let s0 : Ws.S := { hs := { version := "1.1", key := some [1] }, buffer := { maxLength := 10 } }
+    life (fun _ => []) none s0 [.app (.accept none []), .app (.close (.int 70000) none), .app (.send none (some (.int 5)))] =
+      [.response 101 [("sec-websocket-accept".b, []), ("upgrade".b, "WebSocket".b), ("connection".b, "Upgrade".b)], .access 101,
+       .data (.close 1011), .streamClosed] ∧
+    life (fun _ => []) none s0 [.app (.respStart (some 403) (some [])), .app (.respBody none true), .app (.close .absent none)] =
+      [.response 403 [], .body [], .streamClosed] ∧
+    life (fun _ => []) none s0 [.app (.accept (some "nope".b) [])] = Ws.errorResponse 500 ++ [.streamClosed] := by decide
 
 /-- **HTTP/2 reset rule** (`H2Protocol._reset_abandoned_response`): a closing HTTP stream whose send buffer exists and was
     never completed is reset; a completed one (END_STREAM sent, buffer gone) is not -/
